@@ -89,6 +89,18 @@ Theorem C04_labels_irrelevant_history : forall size fuel h1 h2 m1,
   exists m2, run size fuel [] h2 = Some m2 /\ forall k, pos_of_key m1 k = pos_of_key m2 k.
 Proof. exact run_labels_irrelevant_pos. Qed.
 
+(* RandomnessManager.register_simulants: the identity of a simulant is its KEY columns, found in the frame by label and
+   taken in configuration order - the other columns of the state table and the frame's column order play no part. *)
+Theorem C04_only_key_columns_matter : forall size kcols m labels f f' t fuel,
+  (forall c, In c kcols -> zassoc c f = zassoc c f') ->
+  register size kcols m labels f t fuel = register size kcols m labels f' t fuel.
+Proof. exact register_key_columns_only. Qed.
+
+Theorem C04_column_order_irrelevant : forall size kcols m labels f f' t fuel,
+  NoDup (map fst f) -> Permutation f f' ->
+  register size kcols m labels f t fuel = register size kcols m labels f' t fuel.
+Proof. exact register_column_order_irrelevant. Qed.
+
 (* The simulant attached to a key is the one that supplied it: the simulant index is joined back on the key
    levels, never positionally.  (A map that is injective but mis-aligned violates exactly this.) *)
 Theorem C04_join_by_key : forall size crn m b t fuel m', Inj m -> update size crn m b t fuel = Ok m' ->
@@ -137,5 +149,7 @@ Print Assumptions C04_clean_order_irrelevant.
 Print Assumptions C04_rejection_order_irrelevant.
 Print Assumptions C04_labels_irrelevant.
 Print Assumptions C04_labels_irrelevant_history.
+Print Assumptions C04_only_key_columns_matter.
+Print Assumptions C04_column_order_irrelevant.
 Print Assumptions C04_join_by_key.
 Print Assumptions C04_join_by_key_history.
